@@ -273,6 +273,9 @@ func (t *Thread) processIncomingInterest(packet *defn.Pkt) {
 					packet.Raw = csWire
 					packet.Name = csData.NameV
 					strategy.AfterContentStoreHit(packet, pitEntry, incomingFace.FaceID())
+					// The in-record of this face is consumed: the PIT entry goes when the records
+					// that remain (if any) expire, at once if there are none
+					table.UpdateExpirationTimer(pitEntry)
 					return
 				} else if err != nil {
 					core.LogError(t, "Error copying CS entry: ", err)
